@@ -103,6 +103,7 @@ type tileStub struct {
 	world  *World
 	keyIdx int
 	kind   string   // sumdb | tiles
+	ext    []string // extension lines this log puts after the root hash (legal for tlog-tiles style logs)
 	bad    []string // malformed tile requests seen
 	served int
 	cpText string
@@ -112,7 +113,7 @@ func (s *tileStub) checkpoint() []byte {
 	s.mu.Lock()
 	defer s.mu.Unlock()
 	h := s.tree.Root(s.size)
-	text := CheckpointText(s.origin, s.size, h[:])
+	text := CheckpointText(s.origin, s.size, h[:], s.ext...)
 	s.cpText = text
 	line := ""
 	if s.world != nil {
